@@ -121,6 +121,9 @@ def run(tier):
         b.add(f"GIRBlockViewer accepts the emitted rows, {c['len']} tokens", M, "check_viewer_accepts", slices=slices,
               pct=c["pct"], ppt=30, bounds={"tokens": c["len"], "start_id": 1})
     b.execute()
+    from vlib.checks import c03_corpus
+    r.encoded.append(common.src_ref("src/lian/lang/lang_analysis.py", "LangAnalysis.run / GIRParser.deal_with_file_unit (through main.py lang, corpus leg)"))
+    c03_corpus.run_leg(r, tier)
     r.add_sample({"tokens": [0, 4, 2, 7, 5, 1, 2, 7], "meaning": "assign; if { call }; method_decl { variable_decl; call }",
                   "start": "symbolic"})
     return r
@@ -128,6 +131,9 @@ def run(tier):
 
 def replay(rec):
     cex = rec["cex"]
+    if (cex.get("cex") or {}).get("kind") == "corpus":
+        from vlib.checks import c03_corpus
+        return c03_corpus.replay(rec)
     if "tokens" not in (cex.get("cex") or {}):
         return True, cex
     out = xrun.replay_native(M, "check_flatten", cex.get("slice", {}), cex["cex"])
